@@ -19,6 +19,7 @@ type Req struct {
 	Probes     []string `json:"probes,omitempty"`
 	Predef     []string `json:"predef,omitempty"`
 	SyntaxOnly bool     `json:"syntaxOnly,omitempty"`
+	Timeout    int      `json:"timeout,omitempty"` // ms, default 400
 }
 
 type Resp struct {
@@ -113,3 +114,18 @@ func (w *Worker) Close() {
 }
 
 var Default = &Worker{}
+
+// RunPatient is Run, but a timeout is only believed after the same request also
+// timed out with a 10x and then a 40x larger limit (a busy machine must not
+// turn into "does not terminate").
+func (w *Worker) RunPatient(r Req) (Resp, error) {
+	resp, err := w.Run(r)
+	for _, t := range []int{4000, 16000} {
+		if err != nil || resp.Status != "timeout" {
+			return resp, err
+		}
+		r.Timeout = t
+		resp, err = w.Run(r)
+	}
+	return resp, err
+}
